@@ -345,6 +345,7 @@ type shardResult struct {
 	timedOut bool
 	dir      string
 	exit     int
+	maxRSS   int64 // KiB, the largest of the shard's processes
 }
 
 type death struct {
@@ -418,6 +419,11 @@ func runShard(id string, sp spec, bin, work string, idx, nsh int, tier string, s
 			res.timedOut = true
 		}
 		lf.Close()
+		if cmd.ProcessState != nil {
+			if ru, ok := cmd.ProcessState.SysUsage().(*syscall.Rusage); ok && ru.Maxrss > res.maxRSS {
+				res.maxRSS = ru.Maxrss
+			}
+		}
 		fr, ferr := readFrag(fragPath)
 		if ferr == nil {
 			res.frags = append(res.frags, fr)
@@ -838,7 +844,13 @@ func merge(id string, sp spec, tier string, seed uint64, results []*shardResult,
 	_ = os.MkdirAll(filepath.Join(root, evidenceDir), 0o755)
 	_ = os.WriteFile(filepath.Join(root, evidenceDir, id+".json"), b, 0o644)
 
-	fmt.Printf("property=%s tier=%s seed=%d shards=%d evaluations=%d distinct_nontrivial=%d wall=%.1fs\n", id, tier, seed, len(results), evals, len(nt), wall)
+	var maxRSS int64
+	for _, r := range results {
+		if r.maxRSS > maxRSS {
+			maxRSS = r.maxRSS
+		}
+	}
+	fmt.Printf("property=%s tier=%s seed=%d shards=%d evaluations=%d distinct_nontrivial=%d wall=%.1fs max_shard_rss=%dMiB\n", id, tier, seed, len(results), evals, len(nt), wall, maxRSS>>10)
 	for _, k := range known {
 		if k.Kind == "known" {
 			fmt.Printf("KNOWN-FINDING: property=%s %s (sig=%s, excluded on this run: %d)\n", id, k.Text, k.Sig, excluded[k.Sig])
